@@ -49,7 +49,7 @@ TRACE_PLANS = {
             # conflict is rendered
             ("cancelrender:unionoverlap,unionempty,midconflict", 40, 800, "", False),
             # a solve cancelled with requests in flight, then the same solver again: it must return
-            ("cancel:small,hints", 3, 40, "async", False)],
+            ("cancel:small,hints", 3, 20, "async", False)],
     "C05": [("solve:midconflict,conflict,direct", 250, 4000, "", True),
             ("solve:base,cyclic", 200, 3000, "hints", True),
             ("solve:selfreq,hintcons", 400, 5000, "", True),
@@ -63,17 +63,17 @@ TRACE_PLANS = {
             ("template:direct", 300, 6000, "", True)],
     "C09": [("solve:clean,base,unknown", 300, 5000, "", False),
             ("history:base,clean,unknown", 200, 3000, "", False),
-            ("cancel:small,hints", 4, 80, "async", False)],
+            ("cancel:small,hints", 4, 40, "async", False)],
     "C10": [("solve:small,base,hints,unknown", 60, 1500, "async,asynchints", False),
             ("solve:midconflict,fan", 40, 800, "async", False),
             ("history:base,hints", 40, 800, "async", False),
             # a cancelled solve with requests in flight, then the next solve on the same solver
-            ("cancel:small,hints", 3, 60, "async", False)],
+            ("cancel:small,hints", 3, 30, "async", False)],
     "C11": [("solve:fan,base,clean", 90, 2000, "async,asynchints", False)],
-    "C12": [("cancel:small,base,hints,soft", 7, 150, "async", False),
-            ("cancel:midconflict", 3, 60, "async", False)],
+    "C12": [("cancel:small,base,hints,soft", 7, 80, "async", False),
+            ("cancel:midconflict", 3, 30, "async", False)],
     "C13": [("history:base,hints,soft,excl,midconflict,unknown", 54, 1200, "async", True),
-            ("cancel:small,hints,fan", 4, 100, "async", False)],
+            ("cancel:small,hints,fan", 4, 50, "async", False)],
     "C15": [("wide:1,2,3,4,5,6,7,8,9", 1, 1, "", False),
             ("wide:15,16,17,31,32,33,40", 1, 1, "", False),
             ("widechain:2,3,4,5,6,7,8,9,12,16,17,24,32,33,40", 1, 1, "", True),
